@@ -85,14 +85,26 @@ func (tr *transport) handleMessage(r io.Reader) error {
 	}
 
 	ch := make(chan *callExchange)
-	tr.pendingFetch <- &pendingFetch{id: id, call: ch}
-	ex := <-ch
+	select {
+	case tr.pendingFetch <- &pendingFetch{id: id, call: ch}:
+	case <-tr.serveDone:
+		return errAlreadyShutdown // nobody owns the pending calls anymore.
+	}
+	var ex *callExchange
+	select {
+	case ex = <-ch:
+	case <-tr.serveDone:
+		return errAlreadyShutdown
+	}
 	if ex == nil {
 		log.Printf("discard response #%d, type=%d", id, typ)
 		return nil
 	}
 	if ex.typ != typ {
 		log.Printf("response #%d, type %d!=%d", id, typ, ex.typ)
+		// The call is no longer pending; fail it rather than strand it.
+		ex.err = fmt.Errorf("response type %d, want %d", typ, ex.typ)
+		ex.done()
 		return nil
 	}
 	defer ex.done()
@@ -238,6 +250,8 @@ func (tr *transport) asyncCall(call *transportCall) error {
 	select {
 	case <-ctx.Done():
 		return ctx.Err()
+	case <-tr.serveDone:
+		return errAlreadyShutdown // the serve loop will never pick it up.
 	case tr.calls <- ex:
 	}
 	return nil
@@ -261,6 +275,15 @@ func (tr *transport) call(
 	case <-ctx.Done():
 		return ctx.Err()
 	case <-done:
+	case <-tr.serveDone:
+		// The serve loop has exited; it fails every call it has seen before
+		// closing serveDone, so if this call is not done by now it was left
+		// in the queue and will never complete.
+		select {
+		case <-done:
+		default:
+			return errAlreadyShutdown
+		}
 	}
 	return err
 }
